@@ -1289,7 +1289,23 @@ impl Visitor<Diagnostic> for LibraryRenderer {
         };
         self.write_ws(op);
 
-        self.visit_expr_kind(&node.term)
+        // A sign or operator cannot directly follow a unary operator
+        let needs_parens = match &node.term {
+            dsl::textual::ExprKind::UnaryOp(_) => true,
+            dsl::textual::ExprKind::Const(ConstantKind::IntegerLiteral(lit)) => lit.value.is_neg,
+            dsl::textual::ExprKind::Const(ConstantKind::RealLiteral(lit)) => {
+                lit.value.is_sign_negative()
+            }
+            _ => false,
+        };
+        if needs_parens {
+            self.write_ws("(");
+            self.visit_expr_kind(&node.term)?;
+            self.write_ws(")");
+            Ok(())
+        } else {
+            self.visit_expr_kind(&node.term)
+        }
     }
 
     fn visit_function(&mut self, node: &dsl::textual::Function) -> Result<Self::Value, Diagnostic> {
